@@ -174,6 +174,7 @@ def claim_cost(E, B, P, x, y, rec, tag='', claims=('A', 'B', 'C'), canary=True):
     r = grid_r(B)
     E.claim_true(tag + 'flags', P.totalCorr.space == Space.Fourier and P.directCorr.space == Space.Fourier and P.omega.space == Space.Fourier)
     E.claim_true(tag + 'y-shape', _np.shape(y) == (N * n * n,))
+    E.claim_true(tag + 'type-labels-kept', all(list(getattr(P, w_).types) == list(types) for w_ in ('totalCorr', 'directCorr', 'omega', 'GammaOut')))
     # ---- (B) closure wiring: each pair's closure saw gamma_in = x/r of that pair, that pair's u/kT and sigma
     Chat = {}
     creal = {}
